@@ -30,6 +30,21 @@ theorem spawn_registers_under_heap_lock : openK15b = false → spawnLocked = tru
 /-- **The controller is one word of request bits and no exit loop leaves on an interrupt** (K15c, K17a, K17c). -/
 theorem controller_is_one_word : openController = false → controllerOneWord = true := by decide
 
+/-- **Every `park()` of the handshake sits inside a `while` that re-tests the request word** — the nearest enclosing
+loop of each call.  `park()` may return at any time (a token left by an earlier `resume_threads`, which unparks every
+registered thread whether it parked or not; a spurious wake-up): the models have the step `spurious` and the step
+`parking → exitCheck` (never `parking → run`), and that edge exists in the code iff this holds. -/
+theorem park_is_in_a_loop : ∀ p ∈ parkSites, p.inLoop = true := by decide
+
+theorem parks_nonempty : 3 ≤ parkSites.length ∧ (parkSites.any fun p => p.fn == "park_thread_while_paused") = true := by
+  decide
+
+/-- **`resume_threads` is the LAST step of a full collection**: the function that stops the world and walks the other
+threads' stacks does not resume them, and every `resume_threads()` of values/closed.rs stands after the marking call and
+after the bump of the root generation — the other threads are parked for the WHOLE marking (the models' `gc` round:
+`stopP … spin/acc … resLock`, nothing between the scan and the resume that another thread could interleave with). -/
+theorem collection_resumes_last : markHasNoResume = true ∧ resumeAfterMark = true := by decide
+
 /-- The extraction is not empty: the three exits of the code are there. -/
 theorem exits_nonempty :
     3 ≤ exitSites.length ∧ (exitSites.any fun e => e.fn == "enter_safepoint") = true ∧
